@@ -805,6 +805,9 @@ func (c *EvalCtx) evalCall(n ECall, want *Sort) (Val, error) {
 		}
 		x.birth()
 		own := or(eq(v.L[0], "0"), "(> (birth "+v.L[0]+") "+x.entryNow+")")
+		if x.allocHere[v.L[0]] {
+			own = "true"
+		}
 		if x.rootSpec != nil && x.cur != nil {
 			root := x.cur
 			for root.caller != nil {
